@@ -17,7 +17,13 @@
 //! * DISTANCE — later traffic (big messages) puts the anchor region at a chosen distance from the tail of the
 //!   messages+runs sidecar: beyond the 8 MiB tail-scan limit (seekable-window path), or with one of the byte
 //!   budgets 256 KiB … 8 MiB falling inside the region; in such layouts every message of the region is an anchor,
-//!   plus the messages of the later traffic that sit around each byte budget.
+//!   plus the messages of the later traffic that sit around each byte budget;
+//! * RUN OUTCOMES — a seeded share (directed: all / half) of the frame-only runs (turn runs, late runs, runs of the
+//!   later traffic) ends the way a run that did NOT complete ends: session = started, some streamed output text
+//!   (partial reply) or none, ended with one of the reasons rip ends runs with (provider_error, invalid_request,
+//!   max_tool_calls_exceeded, context_compile_failed, unknown, a hook's abort reason), snapshot or not, then the
+//!   `continuity_run_ended` frame with that reason. The run answered its message, so its (partial) reply text belongs
+//!   to the bundle whatever the read path (sidecar as the appends left it / rebuilt / removed / replay).
 
 use crate::c04::{diff_summary, run_query, QueryDef};
 use crate::fixture::{runtime, wait_for, App, Store};
@@ -187,6 +193,45 @@ struct Layout {
     /// later traffic after the anchor region: sets the DISTANCE between the anchors and the tail of the
     /// messages+runs sidecar relative to the internal read budgets
     pad: Option<Pad>,
+    /// RUN OUTCOMES: percent of the frame-only runs that end with a reason other than "completed" (None = seeded
+    /// per case from a separate random stream)
+    fail_pct: Option<u64>,
+}
+
+/// How one frame-only run ended.
+#[derive(Clone, Copy, Debug)]
+struct Outcome {
+    reason: &'static str,
+    /// the run streamed output text before it ended
+    text: bool,
+}
+
+/// The reasons rip ends a run with besides "completed" (session.rs: provider loop errors, tool-call budget, failed
+/// context compile, no end frame seen) and a free-form one (a hook's abort reason ends the session with any string).
+const FAIL_REASONS: [&str; 6] = ["provider_error", "invalid_request", "max_tool_calls_exceeded", "context_compile_failed", "unknown", "aborted_by_hook"];
+
+/// Seeded run outcomes of one case; its own random stream, so the other dimensions of a layout do not move.
+struct Outcomes {
+    rng: Rng,
+    fail_pct: u64,
+    /// directed part: the first failing runs of a case go through every reason once
+    next_reason: usize,
+}
+
+impl Outcomes {
+    fn pick(&mut self, r: &mut Report, what: &str) -> Outcome {
+        let failed = self.rng.below(100) < self.fail_pct;
+        let oc = if failed {
+            let reason = if self.next_reason < FAIL_REASONS.len() { FAIL_REASONS[self.next_reason] } else { *self.rng.pick(&FAIL_REASONS) };
+            self.next_reason += 1;
+            Outcome { reason, text: self.rng.chance(3, 4) }
+        } else {
+            Outcome { reason: "completed", text: self.rng.chance(5, 6) }
+        };
+        r.count(&format!("run_outcomes_placed:{}:{}", oc.reason, if oc.text { "reply_text" } else { "no_text" }), 1);
+        r.count(&format!("run_outcomes_placed_on:{what}:{}", if failed { "not_completed" } else { "completed" }), 1);
+        oc
+    }
 }
 
 /// Runs that overlap later turns of the same thread.
@@ -247,26 +292,26 @@ fn late_k(rng: &mut Rng, lo_class: usize, span: usize) -> usize {
 
 fn fixed_layouts(rng: &mut Rng) -> Vec<Layout> {
     let fixed: Vec<Layout> = vec![
-        Layout { name: "exactly_15", msgs: 15, dense: 0, real_runs_every: 4, ckpts: vec![], auto_stride: None, filler: 0, all_anchors: false, seq_runs: 33, late: None, pad: None },
-        Layout { name: "exactly_16", msgs: 16, dense: 1, real_runs_every: 5, ckpts: vec![], auto_stride: None, filler: 0, all_anchors: false, seq_runs: 33, late: None, pad: None },
-        Layout { name: "exactly_17", msgs: 17, dense: 0, real_runs_every: 6, ckpts: vec![], auto_stride: None, filler: 0, all_anchors: false, seq_runs: 33, late: None, pad: None },
-        Layout { name: "ckpt_then_16", msgs: 20, dense: 0, real_runs_every: 7, ckpts: vec![4], auto_stride: None, filler: 0, all_anchors: false, seq_runs: 33, late: None, pad: None },
-        Layout { name: "ckpt_then_17", msgs: 21, dense: 2, real_runs_every: 0, ckpts: vec![4], auto_stride: None, filler: 0, all_anchors: false, seq_runs: 33, late: None, pad: None },
-        Layout { name: "ckpt_at_last", msgs: 9, dense: 0, real_runs_every: 3, ckpts: vec![9], auto_stride: None, filler: 0, all_anchors: false, seq_runs: 33, late: None, pad: None },
-        Layout { name: "equal_to_seq_twice", msgs: 10, dense: 0, real_runs_every: 0, ckpts: vec![5, 5, 5], auto_stride: None, filler: 0, all_anchors: false, seq_runs: 33, late: None, pad: None },
-        Layout { name: "halving_4", msgs: 40, dense: 0, real_runs_every: 0, ckpts: vec![2, 5, 10, 20, 38], auto_stride: None, filler: 0, all_anchors: false, seq_runs: 33, late: None, pad: None },
-        Layout { name: "halving_dense", msgs: 24, dense: 3, real_runs_every: 9, ckpts: vec![1, 3, 6, 12, 23], auto_stride: None, filler: 0, all_anchors: false, seq_runs: 33, late: None, pad: None },
-        Layout { name: "auto_every_3", msgs: 19, dense: 1, real_runs_every: 5, ckpts: vec![], auto_stride: Some(3), filler: 0, all_anchors: false, seq_runs: 33, late: None, pad: None },
-        Layout { name: "dense_side_effects", msgs: 8, dense: 60, real_runs_every: 3, ckpts: vec![3], auto_stride: None, filler: 0, all_anchors: false, seq_runs: 33, late: None, pad: None },
-        Layout { name: "single_message", msgs: 1, dense: 2, real_runs_every: 1, ckpts: vec![1], auto_stride: None, filler: 0, all_anchors: false, seq_runs: 33, late: None, pad: None },
+        Layout { name: "exactly_15", msgs: 15, dense: 0, real_runs_every: 4, ckpts: vec![], auto_stride: None, filler: 0, all_anchors: false, seq_runs: 33, late: None, pad: None, fail_pct: None },
+        Layout { name: "exactly_16", msgs: 16, dense: 1, real_runs_every: 5, ckpts: vec![], auto_stride: None, filler: 0, all_anchors: false, seq_runs: 33, late: None, pad: None, fail_pct: None },
+        Layout { name: "exactly_17", msgs: 17, dense: 0, real_runs_every: 6, ckpts: vec![], auto_stride: None, filler: 0, all_anchors: false, seq_runs: 33, late: None, pad: None, fail_pct: None },
+        Layout { name: "ckpt_then_16", msgs: 20, dense: 0, real_runs_every: 7, ckpts: vec![4], auto_stride: None, filler: 0, all_anchors: false, seq_runs: 33, late: None, pad: None, fail_pct: None },
+        Layout { name: "ckpt_then_17", msgs: 21, dense: 2, real_runs_every: 0, ckpts: vec![4], auto_stride: None, filler: 0, all_anchors: false, seq_runs: 33, late: None, pad: None, fail_pct: None },
+        Layout { name: "ckpt_at_last", msgs: 9, dense: 0, real_runs_every: 3, ckpts: vec![9], auto_stride: None, filler: 0, all_anchors: false, seq_runs: 33, late: None, pad: None, fail_pct: None },
+        Layout { name: "equal_to_seq_twice", msgs: 10, dense: 0, real_runs_every: 0, ckpts: vec![5, 5, 5], auto_stride: None, filler: 0, all_anchors: false, seq_runs: 33, late: None, pad: None, fail_pct: None },
+        Layout { name: "halving_4", msgs: 40, dense: 0, real_runs_every: 0, ckpts: vec![2, 5, 10, 20, 38], auto_stride: None, filler: 0, all_anchors: false, seq_runs: 33, late: None, pad: None, fail_pct: None },
+        Layout { name: "halving_dense", msgs: 24, dense: 3, real_runs_every: 9, ckpts: vec![1, 3, 6, 12, 23], auto_stride: None, filler: 0, all_anchors: false, seq_runs: 33, late: None, pad: None, fail_pct: None },
+        Layout { name: "auto_every_3", msgs: 19, dense: 1, real_runs_every: 5, ckpts: vec![], auto_stride: Some(3), filler: 0, all_anchors: false, seq_runs: 33, late: None, pad: None, fail_pct: None },
+        Layout { name: "dense_side_effects", msgs: 8, dense: 60, real_runs_every: 3, ckpts: vec![3], auto_stride: None, filler: 0, all_anchors: false, seq_runs: 33, late: None, pad: None, fail_pct: None },
+        Layout { name: "single_message", msgs: 1, dense: 2, real_runs_every: 1, ckpts: vec![1], auto_stride: None, filler: 0, all_anchors: false, seq_runs: 33, late: None, pad: None, fail_pct: None },
     ];
     let mut fixed = fixed;
-    fixed.push(Layout { name: "big_messages_60", msgs: 60, dense: 0, real_runs_every: 0, ckpts: vec![], auto_stride: None, filler: 6000, all_anchors: true, seq_runs: 33, late: None, pad: None });
-    fixed.push(Layout { name: "big_messages_ckpt", msgs: 70, dense: 1, real_runs_every: 0, ckpts: vec![8], auto_stride: None, filler: 5000, all_anchors: true, seq_runs: 33, late: None, pad: None });
-    fixed.push(Layout { name: "big_messages_runs", msgs: 48, dense: 0, real_runs_every: 7, ckpts: vec![], auto_stride: None, filler: 8000, all_anchors: true, seq_runs: 33, late: None, pad: None });
+    fixed.push(Layout { name: "big_messages_60", msgs: 60, dense: 0, real_runs_every: 0, ckpts: vec![], auto_stride: None, filler: 6000, all_anchors: true, seq_runs: 33, late: None, pad: None, fail_pct: None });
+    fixed.push(Layout { name: "big_messages_ckpt", msgs: 70, dense: 1, real_runs_every: 0, ckpts: vec![8], auto_stride: None, filler: 5000, all_anchors: true, seq_runs: 33, late: None, pad: None, fail_pct: None });
+    fixed.push(Layout { name: "big_messages_runs", msgs: 48, dense: 0, real_runs_every: 7, ckpts: vec![], auto_stride: None, filler: 8000, all_anchors: true, seq_runs: 33, late: None, pad: None, fail_pct: None });
     // interleaved runs (a slow run overlapped by quick turns, bursts of late run ends, runs that never end) for
     // anchors near the tail, at every tail-scan budget, and beyond the 8 MiB tail-scan limit (seekable window)
-    let base = Layout { name: "", msgs: 30, dense: 0, real_runs_every: 0, ckpts: vec![], auto_stride: None, filler: 0, all_anchors: true, seq_runs: 33, late: None, pad: None };
+    let base = Layout { name: "", msgs: 30, dense: 0, real_runs_every: 0, ckpts: vec![], auto_stride: None, filler: 0, all_anchors: true, seq_runs: 33, late: None, pad: None, fail_pct: None };
     let far = |msg: usize| Some(Pad { threshold: 8 * MIB, beyond: true, msg, runs: true });
     let places = ["spread", "burst", "mixed"];
     fixed.push(Layout { name: "far_one_slow_run_quick_turns", msgs: 30, seq_runs: 100,
@@ -287,12 +332,23 @@ fn fixed_layouts(rng: &mut Rng) -> Vec<Layout> {
         pad: Some(Pad { threshold: BUDGETS[rng.usize(3)], beyond: false, msg: 12_000, runs: rng.bool() }), ..base.clone() });
     fixed.push(Layout { name: "near_late_flood", msgs: 30,
         late: Some(Late { k: late_k(rng, 3, 2), place: "mixed", owners: 1 + rng.usize(8), never: 0 }), ..base.clone() });
+    // run outcomes, directed (no draws from `rng` here: the case stream of the older layouts stays as it was): every
+    // turn's run failed / half of them, with late run ends and a checkpoint / a byte budget inside the region; far
+    // anchors: the multi-MiB layouts above, whose runs take seeded outcomes like those of every other layout
+    let outcome_layouts = vec![
+        Layout { name: "near_every_run_failed", msgs: 22, seq_runs: 100, fail_pct: Some(100), ..base.clone() },
+        Layout { name: "near_mixed_outcomes_late_ckpt", msgs: 36, seq_runs: 66, ckpts: vec![6], real_runs_every: 8, fail_pct: Some(50),
+            late: Some(Late { k: 9, place: "spread", owners: 4, never: 1 }), ..base.clone() },
+        Layout { name: "mid_budget_mixed_outcomes", msgs: 34, filler: 600, seq_runs: 100, fail_pct: Some(60),
+            pad: Some(Pad { threshold: 512 * KIB, beyond: false, msg: 12_000, runs: true }), ..base.clone() },
+    ];
     // run order (case index = position; shard = index mod shards): the four multi-MiB layouts early, one per quick
     // shard, so that a loaded machine reaches them within the budget; the big-message layouts keep their indexes
     const ORDER: [usize; 23] = [0, 1, 2, 3, 4, 5, 6, 7, 15, 16, 17, 18, 12, 13, 14, 8, 9, 10, 11, 19, 20, 21, 22];
     if fixed.len() == ORDER.len() {
         fixed = ORDER.iter().map(|i| fixed[*i].clone()).collect();
     }
+    fixed.extend(outcome_layouts);
     fixed
 }
 
@@ -329,6 +385,7 @@ fn layouts(rng: &mut Rng, idx: u64, allow_heavy: bool) -> Layout {
         seq_runs: [33, 33, 100, 0][rng.usize(4)],
         late,
         pad,
+        fail_pct: None,
     }
 }
 
@@ -339,11 +396,14 @@ pub fn run(cfg: &Cfg) -> i32 {
         "enumerated boundary layouts (15/16/17 messages, checkpoint at/after/beyond the cut, equal to_seq, 1-4 halving levels, \
          dense side effects, real routed runs with output; interleaved runs: 1..1400 run_ended frames of older runs landing \
          between recent messages or in a burst before a cut, never-ending runs, quick turns over one slow run; anchor regions \
-         beyond the 8 MiB tail-scan limit or straddling a 256 KiB..8 MiB byte budget of the messages+runs sidecar) plus seeded \
+         beyond the 8 MiB tail-scan limit or straddling a 256 KiB..8 MiB byte budget of the messages+runs sidecar; run \
+         outcomes: a directed / seeded share of the runs ended with each non-completed reason after streaming a partial \
+         reply or nothing) plus seeded \
          random layouts over the same dimensions; every sampled anchor (every message of the region in the long layouts) is \
          compiled by the real entry point and compared with a raw-log model, then re-compiled under other cache states, after \
          appends beyond the cut, without the session snapshot, and while appenders race; distinct = distinct (layout shape, \
-         anchor position + distance class, strategy, late run ends in the window or not)",
+         anchor position + distance class, strategy, late run ends in the window or not, failed runs / their partial \
+         replies in the window or not)",
     );
     r.assume("the model follows context_bundle.md / ADR-0010 / ADR-0018 as implemented in context_compiler.rs and read from the docs");
     let s = sched();
@@ -371,7 +431,7 @@ pub fn run(cfg: &Cfg) -> i32 {
         }
         let mut rng = Rng::derive(seed, i);
         let t0 = r.elapsed();
-        one_case(cfg, &mut r, &rt, &mut rng, i);
+        one_case(cfg, &mut r, &rt, &mut rng, i, seed);
         if verbose {
             eprintln!("case {i}: {:.1}s (evaluations so far {})", r.elapsed() - t0, r.evaluations);
         }
@@ -392,6 +452,8 @@ struct RunPlan {
     sid: String,
     text: String,
     snapshot: bool,
+    /// reason of its run_ended frame (and of the session's end frame)
+    reason: &'static str,
 }
 
 /// Where the late run ends go: a focus cut `c` (1-based message ordinal) with its 16-message window, owners
@@ -423,26 +485,28 @@ fn plan_late(rng: &mut Rng, late: &Late, n: usize, tag: &str, always_snapshot: b
             sid: format!("late-{tag}-{j}"),
             text: format!("late reply {tag} m{owner} r{j} {}", rng.unicode(4)),
             snapshot: always_snapshot || rng.bool(),
+            reason: "completed",
         });
     }
     for j in 0..late.never {
         let owner = 1 + rng.usize(n);
-        plans.push(RunPlan { owner, end_after: None, sid: format!("open-{tag}-{j}"), text: format!("partial {tag} {j}"), snapshot: false });
+        plans.push(RunPlan { owner, end_after: None, sid: format!("open-{tag}-{j}"), text: format!("partial {tag} {j}"), snapshot: false, reason: "completed" });
     }
     (plans, c)
 }
 
 /// A session written straight into the truth log (and optionally its snapshot), the way a finished or a still
-/// running run leaves it behind: started, output text in two deltas, ended.
-fn write_session(log: &rip_log::EventLog, snapshot_dir: Option<&std::path::Path>, sid: &str, text: &str, ended: bool) {
+/// running run leaves it behind: started, output text in two deltas (none for an empty text: the run ended before
+/// it streamed anything), ended with `end` = the reason (None: still running).
+fn write_session(log: &rip_log::EventLog, snapshot_dir: Option<&std::path::Path>, sid: &str, text: &str, end: Option<&str>) {
     let cut = text.char_indices().nth(text.chars().count() / 2).map(|x| x.0).unwrap_or(0);
-    let mut kinds = vec![
-        EventKind::SessionStarted { input: "q".into() },
-        EventKind::OutputTextDelta { delta: text[..cut].to_string() },
-        EventKind::OutputTextDelta { delta: text[cut..].to_string() },
-    ];
-    if ended {
-        kinds.push(EventKind::SessionEnded { reason: "completed".into() });
+    let mut kinds = vec![EventKind::SessionStarted { input: "q".into() }];
+    if !text.is_empty() {
+        kinds.push(EventKind::OutputTextDelta { delta: text[..cut].to_string() });
+        kinds.push(EventKind::OutputTextDelta { delta: text[cut..].to_string() });
+    }
+    if let Some(reason) = end {
+        kinds.push(EventKind::SessionEnded { reason: reason.into() });
     }
     let events: Vec<Event> = kinds
         .into_iter()
@@ -457,7 +521,7 @@ fn write_session(log: &rip_log::EventLog, snapshot_dir: Option<&std::path::Path>
     }
 }
 
-fn one_case(cfg: &Cfg, r: &mut Report, rt: &tokio::runtime::Runtime, rng: &mut Rng, idx: u64) {
+fn one_case(cfg: &Cfg, r: &mut Report, rt: &tokio::runtime::Runtime, rng: &mut Rng, idx: u64, seed: u64) {
     // multi-MiB layouts only while there is budget left for them
     let allow_heavy = r.elapsed() < cfg.budget_s * 0.55;
     let lay = layouts(rng, idx, allow_heavy);
@@ -480,10 +544,22 @@ fn one_case(cfg: &Cfg, r: &mut Report, rt: &tokio::runtime::Runtime, rng: &mut R
     let mr_path = store.streams_dir().join(format!("{thread}.mr.v1.jsonl"));
     // a big log makes every reply lookup without a snapshot a full log scan: multi-MiB layouts keep snapshots
     let heavy = lay.pad.as_ref().map(|p| p.threshold >= 2 * MIB).unwrap_or(false);
-    let (plans, focus) = match &lay.late {
+    let (mut plans, focus) = match &lay.late {
         Some(l) => plan_late(rng, l, lay.msgs, &tag, heavy || l.k >= 100),
         None => (Vec::new(), 0),
     };
+    // run outcomes: own random stream (the draws of the other dimensions stay where they were)
+    let mut orng = Rng::derive(seed ^ 0x0c08_0c08_0c08, idx);
+    let fixed_n = fixed_layouts(&mut Rng::new(0)).len() as u64;
+    let fail_pct = lay.fail_pct.unwrap_or_else(|| if idx < fixed_n { [30, 60, 100][orng.usize(3)] } else { [0, 30, 60, 100][orng.usize(4)] });
+    let mut outs = Outcomes { rng: orng, fail_pct, next_reason: 0 };
+    for p in plans.iter_mut().filter(|p| p.end_after.is_some()) {
+        let oc = outs.pick(r, "late_run");
+        p.reason = oc.reason;
+        if !oc.text {
+            p.text.clear();
+        }
+    }
     for m in 1..=lay.msgs {
         let real = lay.real_runs_every > 0 && m % lay.real_runs_every == 0;
         if real {
@@ -535,10 +611,14 @@ fn one_case(cfg: &Cfg, r: &mut Report, rt: &tokio::runtime::Runtime, rng: &mut R
                 for k in 0..(1 + rng.usize(2)) {
                     let sid = format!("fake-{tag}-{m}-{k}");
                     let _ = st.append_run_spawned(&thread, &mid, &sid, "a".into(), "rv".into());
-                    if heavy {
-                        write_session(&log, Some(&snapshot_dir), &sid, &format!("quick reply {tag} m{m} r{k}"), true);
+                    let oc = outs.pick(r, "turn_run");
+                    let text = if oc.text { format!("quick reply {tag} m{m} r{k}") } else { String::new() };
+                    // (multi-MiB layouts: always a snapshot, also for a run without text - see `heavy`)
+                    let snap = heavy || outs.rng.bool();
+                    if heavy || oc.text || outs.rng.bool() {
+                        write_session(&log, snap.then_some(snapshot_dir.as_path()), &sid, &text, Some(oc.reason));
                     }
-                    let _ = st.append_run_ended(&thread, &mid, &sid, "completed".into(), "a".into(), "rv".into());
+                    let _ = st.append_run_ended(&thread, &mid, &sid, oc.reason.into(), "a".into(), "rv".into());
                 }
             }
         }
@@ -547,7 +627,7 @@ fn one_case(cfg: &Cfg, r: &mut Report, rt: &tokio::runtime::Runtime, rng: &mut R
             for p in plans.iter().filter(|p| p.owner == m) {
                 let _ = st.append_run_spawned(&thread, &msg_ids[m - 1], &p.sid, "a".into(), "rv".into());
                 if p.end_after.is_none() {
-                    write_session(&log, None, &p.sid, &p.text, false);
+                    write_session(&log, None, &p.sid, &p.text, None);
                     r.count("never_ending_runs_placed", 1);
                 }
             }
@@ -559,8 +639,8 @@ fn one_case(cfg: &Cfg, r: &mut Report, rt: &tokio::runtime::Runtime, rng: &mut R
         // older runs end here, between this message and the next one
         for p in plans.iter().filter(|p| p.end_after == Some(m)) {
             if let Some(mid) = msg_ids.get(p.owner - 1) {
-                write_session(&log, p.snapshot.then_some(snapshot_dir.as_path()), &p.sid, &p.text, true);
-                let _ = st.append_run_ended(&thread, mid, &p.sid, "completed".into(), "a".into(), "rv".into());
+                write_session(&log, p.snapshot.then_some(snapshot_dir.as_path()), &p.sid, &p.text, Some(p.reason));
+                let _ = st.append_run_ended(&thread, mid, &p.sid, p.reason.into(), "a".into(), "rv".into());
                 r.count("late_run_ended_frames_placed", 1);
             }
         }
@@ -626,8 +706,10 @@ fn one_case(cfg: &Cfg, r: &mut Report, rt: &tokio::runtime::Runtime, rng: &mut R
             if pad.runs {
                 let sid = format!("pad-{tag}-{i}");
                 let _ = st.append_run_spawned(&thread, &id, &sid, "a".into(), "rv".into());
-                write_session(&log, Some(&snapshot_dir), &sid, &format!("pad reply {i}"), true);
-                let _ = st.append_run_ended(&thread, &id, &sid, "completed".into(), "a".into(), "rv".into());
+                let oc = outs.pick(r, "later_traffic_run");
+                let text = if oc.text { format!("pad reply {i}") } else { String::new() };
+                write_session(&log, Some(&snapshot_dir), &sid, &text, Some(oc.reason));
+                let _ = st.append_run_ended(&thread, &id, &sid, oc.reason.into(), "a".into(), "rv".into());
                 est += 370;
             }
             msg_ids.push(id);
@@ -727,6 +809,15 @@ fn one_case(cfg: &Cfg, r: &mut Report, rt: &tokio::runtime::Runtime, rng: &mut R
         };
         let pos_class = pos_class.as_str();
         let ws = window_stats(&frames, &thread, &m);
+        if ws.failed_answers > 0 {
+            r.count("anchors_with_window_message_answered_by_failed_run", 1);
+            r.count(&format!("anchors_with_partial_reply_of_failed_run_in_bundle:{}", if ws.failed_replies == 0 { "none" } else { pos }), 1);
+            if ws.failed_replies > 0 {
+                if let Some(d) = dist {
+                    r.count(&format!("anchors_with_partial_reply_of_failed_run_by_mr_distance:{}", dist_class(d)), 1);
+                }
+            }
+        }
         if lay.late.is_some() || lay.pad.is_some() {
             if let Some(d) = dist {
                 r.count(&format!("anchors_by_mr_distance_to_tail:{}", dist_class(d)), 1);
@@ -743,6 +834,8 @@ fn one_case(cfg: &Cfg, r: &mut Report, rt: &tokio::runtime::Runtime, rng: &mut R
             json!({"case": idx, "seed": cfg.seed, "layout": format!("{lay:?}"), "anchor_index": ai, "messages": n,
                    "region_messages": region_n, "late_focus_cut_message": focus, "mr_distance_to_tail": dist,
                    "mr_frames_in_window": ws.mr_frames, "run_ended_of_older_messages_in_window": ws.late_ends,
+                   "failed_run_percent": fail_pct, "window_messages_answered_by_failed_run": ws.failed_answers,
+                   "partial_replies_of_failed_runs_in_window": ws.failed_replies,
                    "variant": variant, "diff": diff_summary(got, &expect)})
         };
         // variants: caches as built / mr sidecars removed / every cache removed / snapshots removed
@@ -845,8 +938,9 @@ fn one_case(cfg: &Cfg, r: &mut Report, rt: &tokio::runtime::Runtime, rng: &mut R
                 }
             }
         }
-        r.distinct_str(&format!("{}|{}|{}|ck{}|dense{}|late{}", lay.name, pos_class, m["compiler_strategy"].as_str().unwrap_or("?"),
-            m["compaction_checkpoints"].as_array().map(|a| a.len()).unwrap_or(0), lay.dense.min(3), (ws.late_ends > 0) as u8));
+        r.distinct_str(&format!("{}|{}|{}|ck{}|dense{}|late{}|failed{}", lay.name, pos_class, m["compiler_strategy"].as_str().unwrap_or("?"),
+            m["compaction_checkpoints"].as_array().map(|a| a.len()).unwrap_or(0), lay.dense.min(3), (ws.late_ends > 0) as u8,
+            if ws.failed_replies > 0 { 2 } else { (ws.failed_answers > 0) as u8 }));
         r.count(&format!("strategy:{}", m["compiler_strategy"].as_str().unwrap_or("?")), 1);
         let items = m["items"].as_array().map(|a| a.len()).unwrap_or(0);
         r.count("bundle_items_checked", items as u64);
@@ -962,7 +1056,7 @@ fn one_case(cfg: &Cfg, r: &mut Report, rt: &tokio::runtime::Runtime, rng: &mut R
         }
     }
     if r.samples.len() < r.max_samples {
-        r.sample(json!({"case": idx, "layout": format!("{lay:?}"), "messages": n, "anchors": picks,
+        r.sample(json!({"case": idx, "layout": format!("{lay:?}"), "failed_run_percent": fail_pct, "messages": n, "anchors": picks,
             "frames": frames.len()}));
     }
 }
@@ -1030,6 +1124,10 @@ struct WindowStats {
     mr_frames: usize,
     /// run_ended frames in that range whose message is older than the window
     late_ends: usize,
+    /// window messages whose answering run (last run_ended at or before the cut) did not complete
+    failed_answers: usize,
+    /// ... and streamed output text before it ended: a partial reply the bundle has to carry
+    failed_replies: usize,
 }
 
 fn window_stats(frames: &[truth::Frame], thread: &str, m: &Value) -> WindowStats {
@@ -1037,7 +1135,21 @@ fn window_stats(frames: &[truth::Frame], thread: &str, m: &Value) -> WindowStats
     let first = m["items"].as_array().and_then(|a| a.iter().find_map(|i| i["thread_seq"].as_u64())).unwrap_or(from_seq);
     let tf = truth::stream(frames, "continuity", thread);
     let seq_of: HashMap<&str, u64> = tf.iter().filter(|f| f.ty() == "continuity_message_appended").map(|f| (f.id(), f.seq())).collect();
-    let mut ws = WindowStats { mr_frames: 0, late_ends: 0 };
+    let mut ws = WindowStats { mr_frames: 0, late_ends: 0, failed_answers: 0, failed_replies: 0 };
+    let mut answered: HashMap<&str, (&str, &str)> = HashMap::new();
+    for f in tf.iter().filter(|f| f.ty() == "continuity_run_ended" && f.seq() <= from_seq) {
+        answered.insert(f.s("message_id"), (f.s("run_session_id"), f.s("reason")));
+    }
+    for id in m["items"].as_array().into_iter().flatten().filter_map(|i| i["thread_event_id"].as_str()) {
+        if let Some((sid, reason)) = answered.get(id) {
+            if *reason != "completed" {
+                ws.failed_answers += 1;
+                if truth::stream(frames, "session", sid).iter().any(|f| f.ty() == "output_text_delta" && !f.s("delta").is_empty()) {
+                    ws.failed_replies += 1;
+                }
+            }
+        }
+    }
     for f in tf.iter().filter(|f| f.seq() >= first && f.seq() <= from_seq) {
         match f.ty() {
             "continuity_message_appended" => ws.mr_frames += 1,
